@@ -192,9 +192,10 @@ example : (honestRun { cReq with methods := ["PASSWORD"] } sOpt (fun _ => false)
     is removed from the mask) ends in success with a method that works, WHENEVER some offered method
     works with the two parties' credentials — for every server order, every client order and any
     number of failing methods tried first. Hypothesis `BitSys`: the methods in play have distinct
-    single-bit mask values (true of every implemented method except that SCITOKENS and IDTOKENS
-    share one bit: lists that contain both are outside this theorem and are covered by the matrix
-    engine). -/
+    single-bit mask values (true of every implemented method except that TOKEN and IDTOKENS, two
+    spellings of one method running one exchange, share a bit; before the fix F-C10-idtokens-bit
+    IDTOKENS shared SCITOKENS' bit instead, and lists naming both — run by the matrix engine — made
+    the two ends run different exchanges). -/
 theorem retry_loop_complete (own offered : List String) (credOK : String → Bool)
     (hs : BitSys own offered) (hgood : ∃ g, g ∈ offered ∧ credOK g = true) :
     ∃ m ran, jointLoop offered own credOK (offered.length + 1) (bitmaskOf offered) [] = .success m ran ∧
@@ -226,7 +227,7 @@ theorem honest_auth_complete (c : ClientCfg) (s : ServerCfg) (d : Decision) (cre
 example : BitSys ["FS", "TOKEN", "KERBEROS", "SCITOKENS", "SSL", "CLAIMTOBE", "PASSWORD"] ["SSL", "PASSWORD", "FS", "CLAIMTOBE"] :=
   bitSys_of_check (by decide)
 /-- and fails, as it must, when both spellings of the shared bit are listed -/
-example : bitSysCheck ["SCITOKENS", "IDTOKENS"] ["SCITOKENS"] = false := by decide
+example : bitSysCheck ["TOKEN", "IDTOKENS"] ["TOKEN"] = false := by decide
 /-- a run: the server prefers FS and KERBEROS, which fail between these two parties; SSL works -/
 example : (match jointLoop ["SSL", "FS", "KERBEROS"] ["FS", "KERBEROS", "SSL"] (fun m => m == "SSL") 4
       (bitmaskOf ["SSL", "FS", "KERBEROS"]) [] with
